@@ -2,6 +2,7 @@ package h
 
 import (
 	"errors"
+	"time"
 
 	z "github.com/Oudwins/zog"
 	"github.com/Oudwins/zog/conf"
@@ -21,7 +22,7 @@ func init() {
 // its twin S' in which the focus node is the same node without Catch, on the same input.
 
 func C05_Jobs() []string {
-	out := []string{"multi-issue/parse", "multi-issue/validate", "ptr-elem/parse"}
+	out := []string{"multi-issue/parse", "multi-issue/validate", "ptr-elem/parse", "kinds/parse", "kinds/validate"}
 	for _, j := range shapeJobs() {
 		_, tm, variant, d := split3(j)
 		if tm == "T5" || tm == "T6" || tm == "T7" {
@@ -210,6 +211,8 @@ func c05Extra(kind, mode string) {
 			v.Cover("not-caught")
 			v.Assert(d1.A == x && d1.L[1] == x, "C05:catch-value-used-without-failure")
 		}
+	case "kinds":
+		c05Kinds(mode, g)
 	case "ptr-elem":
 		// catching primitive directly behind Ptr, as slice element and at top level
 		var p1, p2 *int
@@ -229,8 +232,120 @@ func c05Extra(kind, mode string) {
 	}
 }
 
+// catching nodes of the other primitive kinds (Float64, Time, Bool, String) as a struct field
+// next to a non-catching sibling: the twin comparison of C05 for every kind of primitive
+func c05Kinds(mode string, g int) {
+	type D struct {
+		F float64
+		T time.Time
+		B bool
+		S string
+		Y int
+	}
+	t0 := time.Unix(1000, 0).UTC()
+	tc := time.Unix(77, 0).UTC()
+	kind := v.Choice("kind", 4)
+	key := []string{"f", "t", "b", "s"}[kind]
+	fg := v.Float64("fg")
+	mk := func(catch bool) *z.StructSchema {
+		var n z.ZogSchema
+		switch kind {
+		case 0:
+			s := z.Float64().GT(fg).Required()
+			if catch {
+				s = s.Catch(1.5)
+			}
+			n = s
+		case 1:
+			s := z.Time().After(t0).Required()
+			if catch {
+				s = s.Catch(tc)
+			}
+			n = s
+		case 2:
+			s := z.Bool().True().Required()
+			if catch {
+				s = s.Catch(true)
+			}
+			n = s
+		default:
+			s := z.String().Min(2).Required()
+			if catch {
+				s = s.Catch("cc")
+			}
+			n = s
+		}
+		return z.Struct(z.Schema{key: n, "y": z.Int().GT(g).Required()})
+	}
+	f := v.Float64("f")
+	sec := v.Int64("sec")
+	v.Assume(sec > -(1<<40) && sec < 1<<40)
+	tv := time.Unix(sec, 0).UTC()
+	b := v.Bool("b")
+	s := v.String("s", 2)
+	y := v.Int("y")
+	var d1, d2 D
+	var e1, e2 z.ZogIssueMap
+	if mode == "validate" {
+		// the zero value is the absent value of Validate
+		d1 = D{F: f, T: tv, B: b, S: s, Y: y}
+		d2 = d1
+		e1, e2 = mk(true).Validate(&d1), mk(false).Validate(&d2)
+	} else {
+		in := map[string]any{}
+		switch v.Choice("class", 3) {
+		case 0: // missing
+		case 1:
+			in[key] = []int{1} // not coercible to any primitive kind but String
+		default:
+			in[key] = []any{f, tv, b, s}[kind]
+		}
+		if v.Choice("ypresent", 2) == 1 {
+			in["y"] = y
+		}
+		e1, e2 = mk(true).Parse(in, &d1), mk(false).Parse(in, &d2)
+	}
+	v.Assert(len(e1[key]) == 0, "C05:catching-node-reported-an-issue")
+	v.Assert(codesOf(e1["y"]) == codesOf(e2["y"]) && d1.Y == d2.Y, "C05:catch-changed-issues-of-other-nodes")
+	for k := range e1 {
+		v.Assert(k == "y" || k == "$first", "C05:catching-node-reported-an-issue")
+	}
+	failed := len(e2[key]) > 0
+	if failed {
+		v.Cover("caught")
+	} else {
+		v.Cover("not-caught")
+	}
+	switch kind {
+	case 0:
+		if failed {
+			v.Assert(d1.F == 1.5, "C05:failure-did-not-yield-catch-value")
+		} else {
+			v.Assert(d1.F == d2.F && (mode != "validate" || d1.F == f), "C05:catch-value-used-without-failure")
+		}
+	case 1:
+		if failed {
+			v.Assert(d1.T.Equal(tc), "C05:failure-did-not-yield-catch-value")
+		} else {
+			v.Assert(d1.T.Equal(d2.T), "C05:catch-value-used-without-failure")
+		}
+	case 2:
+		if failed {
+			v.Assert(d1.B == true, "C05:failure-did-not-yield-catch-value")
+		} else {
+			v.Assert(d1.B == d2.B, "C05:catch-value-used-without-failure")
+		}
+	default:
+		if failed {
+			v.Assert(d1.S == "cc", "C05:failure-did-not-yield-catch-value")
+		} else {
+			v.Assert(d1.S == d2.S, "C05:catch-value-used-without-failure")
+		}
+	}
+}
+
 func C05_Run(job string) {
-	if a, b, _, _ := split3(job); a == "multi-issue" || a == "ptr-elem" {
+	if a, b, _, _ := split3(job); a == "multi-issue" || a == "ptr-elem" || a == "kinds" {
 		c05Extra(a, b)
 		return
 	}
